@@ -206,6 +206,13 @@ Proof. destruct e; reflexivity. Qed.
 (* the repaired reset: exactly a newly created encoder with the same settings *)
 Lemma reset_fixed_is_fresh : forall e, enc_reset_fixed e = enc_fresh (e_settings e).
 Proof. destruct e; reflexivity. Qed.
+(* both resets clear the CDATA / content flags UNCONDITIONALLY — in particular in_cdata whatever e_cdata is: XML output
+   never allocates the cdata buffer, so a reset that looked at the buffer would leave in_cdata set *)
+Lemma reset_clears_cdata_flags : forall e,
+  (e_in_cdata (enc_reset e) = false /\ e_in_content (enc_reset e) = false /\ e_cdata (enc_reset e) = None) /\
+  (e_in_cdata (enc_reset_fixed e) = false /\ e_in_content (enc_reset_fixed e) = false /\ e_cdata (enc_reset_fixed e) = None /\
+   e_indent (enc_reset_fixed e) = 0).
+Proof. destruct e; repeat split; reflexivity. Qed.
 (* the reset as it is never is: the string-table list is NULL where creation allocates one *)
 Lemma reset_is_never_fresh : forall e, enc_reset e <> enc_fresh (e_settings e).
 Proof. intros e H. apply (f_equal e_strstbl) in H. destruct e; discriminate H. Qed.
